@@ -330,18 +330,34 @@ def install():
     for m in mods.values():
         if hasattr(m, "math"):
             m.math = SYM_MATH
+        # concrete arguments go to the module's own function (a change to it must show in every check); symbolic ones to the atomic predicate
         if "isclose" in m.__dict__:
-            m.isclose = sym_isclose
+            def _mk_isclose(orig):
+                def wrapped(a, b, *rest, **kw):
+                    if _any_sym((a, b)):
+                        return sym_isclose(a, b, *rest, **kw)
+                    return orig(a, b, *rest, **kw)
+                return wrapped
+            m.isclose = _mk_isclose(m.isclose)
         if "sqrt" in m.__dict__:
-            m.sqrt = SYM_MATH.sqrt
+            def _mk_sqrt(orig):
+                def wrapped(v):
+                    return SYM_MATH.sqrt(v) if isinstance(v, Sym) else orig(v)
+                return wrapped
+            m.sqrt = _mk_sqrt(m.sqrt)
         m.max = sym_max
         m.min = sym_min
     pt = mods["beziers.point"]
     _orig_init = pt.Point.__init__
 
     def init(self, x, y):
-        self.x = x if isinstance(x, Sym) else float(x)
-        self.y = y if isinstance(y, Sym) else float(y)
+        # symbolic coordinates are stored as they are (the constructor is modelled as `self.x, self.y = float(x), float(y)`);
+        # concrete ones go through the library's own constructor, so that a change to it shows in every check
+        if isinstance(x, Sym) or isinstance(y, Sym):
+            self.x = x if isinstance(x, Sym) else float(x)
+            self.y = y if isinstance(y, Sym) else float(y)
+        else:
+            _orig_init(self, x, y)
 
     pt.Point.__init__ = init
     # Point.__eq__ defines a local isclose; give it the atomic predicate when symbolic
